@@ -170,7 +170,19 @@ def observe_op(opt, cfg, op):
     k0 = key_of(cfg, q, opt.directory_split)
     obs["disk_before"] = disk_entry(cfg, q, k0)
     try:
-        if obs["api"] == "call":
+        if obs["api"] == "update":
+            # explicit `update_from_tree(tree, overwrite=...)` with a tree built by the harness
+            ans = op["ans"]
+            n = len(q["inputs"])
+            tree = ContractionTree.from_path(q["inputs"], q["output"], q["sizes"],
+                                             ssa_path=gen.tree_to_ssa(ans["tree"], n) if n > 1 else [])
+            for ix in ans.get("sliced", ()):
+                tree.remove_ind_(ix)
+            obs["update_con"] = con_summary(q, {"path": tree.get_path(), "score": tree.get_score(),
+                                                "sliced_inds": tuple(tree.sliced_inds)})
+            opt.update_from_tree(tree, overwrite=op["overwrite"])
+            obs["outcome"] = "ok"
+        elif obs["api"] == "call":
             path = opt(q["inputs"], q["output"], q["sizes"])
             obs["outcome"] = "ok"
             obs["path"] = _jsonable(path)
